@@ -640,10 +640,34 @@ def r05_6(run):
 def r05_7(run):
     tp = run.idx.cls('_TorSocksProtocol', MOD)
     cc = run.idx.find_method(tp, '_create_connection')
-    od = run.idx.find_method(tp, '_on_data')
     dr = run.idx.find_method(tp, 'dataReceived')
-    if not (cc and od and dr):
-        raise AnchorVanished('_TorSocksProtocol._create_connection/_on_data/dataReceived')
+    # what the machine wants to send goes out when it is produced (a writer handed in as on_data=), not queued for a later flush:
+    # otherwise an application protocol created inside feed_data() writes to the shared transport ahead of the queued request
+    ini = run.idx.find_method(tp, '__init__')
+    od = None
+    mcalls = [c for c in calls_in(ini) if dotted(c.func) == '_SocksMachine'] if ini else []
+    for c in mcalls:
+        kw = dict((k.arg, k.value) for k in c.keywords)
+        w = kw.get('on_data')
+        wd = dotted(w) if w is not None else None
+        if wd and wd.startswith('self.'):
+            od = run.idx.find_method(tp, wd.split('.')[1])
+        run.ob('R05.7', ini, c, 'the machine is given a synchronous writer (on_data=)', od is not None, slot='sync-writer',
+               message='_TorSocksProtocol builds its _SocksMachine without on_data=: the machine only queues its bytes, and an application protocol that writes as soon '
+                       'as it is connected overtakes the still-queued SOCKS request on the wire')
+    cl_ = run.idx.find_method(tp, 'connectionLost')
+    if cl_ is not None:
+        dcs = [c for c in calls_in(cl_) if dotted(c.func) == 'self._machine.disconnected']
+        for c in dcs:
+            a = c.args[0] if c.args else None
+            okd = isinstance(a, ast.Call) and (dotted(a.func) or '').split('.')[-1].endswith('Error') and 'Socks' in (dotted(a.func) or '')
+            run.ob('R05.7', cl_, c, 'a disconnect before success fails the attempt with a SOCKS error', okd, slot='disconnect-error-type',
+                   message='connectionLost hands %s to the machine: when_done()/connect() then fail with a non-SOCKS exception (callers catching SocksError miss it)' % (src(a)[:40] if a is not None else None))
+        run.ob('R05.7', cl_, cl_.node, 'connection loss is reported to the machine', len(dcs) == 1, slot='disconnect-reported', message='%d disconnected() calls in connectionLost' % len(dcs))
+    if not (cc and dr and mcalls):
+        raise AnchorVanished('_TorSocksProtocol._create_connection/dataReceived/_SocksMachine(...)')
+    if od is None:
+        return
     mk = [c for c in calls_in(cc) if callee_attr(c) == 'makeConnection']
     ok = bool(mk) and all(c.args and dotted(c.args[0]) == 'self.transport' for c in mk)
     run.ob('R05.7', cc, mk[0] if mk else cc.node, 'application protocol is connected to the SOCKS transport', ok, slot='makeConnection',
@@ -697,6 +721,8 @@ RULES = [
 from ..selftest import M  # noqa: E402
 F = 'txtorcon/socks.py'
 MUTANTS = [
+    M('disconnect-raw-reason', F, "        self._machine.disconnected(SocksError(reason))", "        self._machine.disconnected(reason.value)", ['R05.7']),
+    M('machine-output-queued', F, "            on_data=self._on_data,\n", "", ['R05.7']),
     M('ipv6-waits-one-more', F, "        if len(self._data) >= 22:", "        if len(self._data) > 22:", ['R05.8']),
     M('ipv6-addr-offset', F, "            addr = self._data[4:20]", "            addr = self._data[5:20]", ['R05.8']),
     M('ipv4-port-3-bytes', F, "            port = struct.unpack('H', self._data[8:10])[0]", "            port = struct.unpack('H', self._data[8:11])[0]", ['R05.8']),
